@@ -6,6 +6,7 @@ import (
 	"fmt"
 	"math/bits"
 	"sort"
+	"strconv"
 	"strings"
 )
 
@@ -148,15 +149,25 @@ func NewCtx() *Ctx {
 }
 
 func (c *Ctx) intern(t *Term) *Term {
-	var sb strings.Builder
-	fmt.Fprintf(&sb, "%d|%s|%s|%d|", t.Op, t.Sort.str, t.Name, t.Val)
+	buf := make([]byte, 0, 64)
+	buf = strconv.AppendInt(buf, int64(t.Op), 10)
+	buf = append(buf, '|')
+	buf = append(buf, t.Sort.str...)
+	buf = append(buf, '|')
+	buf = append(buf, t.Name...)
+	buf = append(buf, '|')
+	buf = strconv.AppendUint(buf, t.Val, 16)
+	buf = append(buf, '|')
 	for _, a := range t.Args {
-		fmt.Fprintf(&sb, "%d,", a.ID)
+		buf = strconv.AppendInt(buf, int64(a.ID), 36)
+		buf = append(buf, ',')
 	}
 	for _, a := range t.BVars {
-		fmt.Fprintf(&sb, "b%d,", a.ID)
+		buf = append(buf, 'b')
+		buf = strconv.AppendInt(buf, int64(a.ID), 36)
+		buf = append(buf, ',')
 	}
-	k := sb.String()
+	k := string(buf)
 	if p, ok := c.tab[k]; ok {
 		return p
 	}
